@@ -40,11 +40,29 @@ def run(chk, ctx):
         chk.nontrivial((o['rule'], r['line_events'] // 50))
         for k in range(0, r['points'], max(1, r['points'] // 40)):
             chk.nontrivial((o['rule'], 'pt', k))
+    # the command-line driver catches the interrupt itself and renders what was asked for: every combination of report/dump/json
+    mtotal = 0
+    for j, (blt, o) in enumerate(jobs[::3] if quick else jobs):
+        try:
+            r = idr.main_sweep(blt, o, npoints=(4 if quick else 24))
+        except Exception as ex:
+            chk.notes.append("main sweep skipped for %r: %s" % (o, ex)); continue
+        mtotal += r['points']; chk.count(r['points'])
+        chk.nontrivial((o['rule'], 'main'))
+        for b in r['failures']:
+            chk.violation("%s through Droop.main at interruption point %s (%s)" % (b['kind'], b.get('k'), b.get('flags')),
+                          dict(blt=blt, options=o, failure=b), signature=dict(kind=b['kind'], rule=o['rule']))
+    chk.cov['main_interruption_runs'] = mtotal
     chk.cov['interruption_points'] = total
     chk.sample(dict(blt=FIXED, options=jobs[0][1], note="interrupt at every %d-th line event" % (7 if quick else 1)))
     chk.notes.append("model side: Props/C19.v (prefix theorem for interruptions between micro-operations); this driver covers interrupts at Python line granularity")
 
 def replay(chk, payload):
+    if payload['failure'].get('entry') == 'Droop.main':
+        argv0 = ['%s=%s' % (k, str(v).lower() if isinstance(v, bool) else v) for k, v in sorted(payload['options'].items())]
+        bad, pts = idr._main_work((payload['blt'], argv0, [payload['failure']['k']]))
+        print(pts, bad)
+        return 1 if bad else 0
     full, n = idr.full_run(payload['blt'], payload['options'])
     bad, where = idr.interrupted_run(payload['blt'], payload['options'], payload['failure']['k'], full)
     print(where, bad)
